@@ -43,6 +43,8 @@ def edit_alphabet(lengths):
     for v in (1, 0xffffffff, 0x01020304):
         ops.append(('rserial', v))
     ops.append(('strip', None))
+    for f in ('+n', '-n', '+a', '-a', '+i', '-i'):
+        ops.append(('flag', f))
     return ops
 
 
@@ -50,6 +52,8 @@ def op_text(op):
     k, v = op
     if k == 'strip':
         return 'strip'
+    if k == 'flag':
+        return 'flag' + v
     if k == 'rserial':
         return 'rserial=%d' % v
     if v is None:
@@ -101,7 +105,7 @@ def describe(m: R.Msg):
 def judge_edit(prev_hex, op, ret, new_hex, canon, out, hits, path):
     case = {'start': path[0], 'ops': path[1] + [op_text(op)]}
     k, v = op
-    hk = k if k in ('strip', 'rserial') else (k + ('-del' if v is None else '-set'))
+    hk = k if k in ('strip', 'rserial', 'flag') else (k + ('-del' if v is None else '-set'))
     hits[hk] = hits.get(hk, 0) + 1
     if ret != 1:
         out.append(Violation('setter-failed', k, 'setter returned %d for a legal edit %s' % (ret, op_text(op)), case))
@@ -123,6 +127,10 @@ def judge_edit(prev_hex, op, ret, new_hex, canon, out, hits, path):
     expect = dict(dp)
     if k == 'strip':
         expect['unknown'] = []
+    elif k == 'flag':
+        bit = {'n': 1, 'a': 2, 'i': 4}[v[1]]
+        on = (v[0] == '+') != (v[1] == 'a')         # set_auto_start(TRUE) clears NO_AUTO_START
+        expect['flags'] = (dp['flags'] | bit) if on else (dp['flags'] & ~bit)
     elif k == 'rserial':
         expect['f5'] = R.canon_value((b'u', v))
     else:
@@ -134,7 +142,7 @@ def judge_edit(prev_hex, op, ret, new_hex, canon, out, hits, path):
             expect[key] = R.canon_value((R.FIELD_TYPE[code], v))
     if dn != expect:
         diff = {kk: (expect.get(kk), dn.get(kk)) for kk in set(expect) | set(dn) if expect.get(kk) != dn.get(kk)}
-        clause = 'edited-field-wrong' if any(kk == ('f%d' % FIELDS.get(k, 5)) for kk in diff) and len(diff) == 1 else 'other-field-changed'
+        clause = 'edited-field-wrong' if (any(kk == ('f%d' % FIELDS.get(k, 5)) for kk in diff) or (k == 'flag' and 'flags' in diff)) and len(diff) == 1 else 'other-field-changed'
         out.append(Violation(clause, k + ('-del' if v is None and k not in ('strip',) else ''), 'after %s: expected/got differ in %r' % (op_text(op), diff), dict(case, bytes=new_hex)))
         return None
     # accessor view must agree with the bytes
